@@ -130,6 +130,12 @@ def decodeEdges : List UInt8 → List Nat
   | a :: b :: c :: d :: r => (a.toNat * 16777216 + b.toNat * 65536 + c.toNat * 256 + d.toNat) :: decodeEdges r
   | _ => []
 
+/-- `TCP::sack(edges)`: every edge written big-endian (`stream.write_be`) -/
+def encodeEdges : List Nat → List UInt8
+  | [] => []
+  | e :: r => UInt8.ofNat (e / 16777216) :: UInt8.ofNat (e / 65536) :: UInt8.ofNat (e / 256) :: UInt8.ofNat e
+      :: encodeEdges r
+
 def decodeSack (data : List UInt8) : SackOpt :=
   if data.length % 4 != 0 then .malformed else .edges (decodeEdges data)
 
